@@ -442,4 +442,34 @@ theorem drawLines_soft_congr (m m' : TextMode) (h : m.hard = false) (h' : m'.har
       | error p => rfl
       | ok s' => simp [ih]
 
+/-! ### Fill -/
+
+/-- `s.Buffer[i].Style = style` -/
+def fillStep (st : Nat) (buf : List Cell) (_c : Cell) (i : Nat) : Step (List Cell) :=
+  match buf[i]? with
+  | some c' => .next (buf.set i { c' with st := st })
+  | none => .err (.panic .indexOutOfRange)
+
+theorem foldSI_fill (st : Nat) : ∀ (todo done : List Cell) (items : List Cell), items.length = todo.length →
+    foldSI (fillStep st) items done.length (done ++ todo) = .next (done ++ todo.map fun c => { c with st := st }) := by
+  intro todo
+  induction todo with
+  | nil => intro done items h; cases items with
+    | nil => simp [foldSI]
+    | cons a b => simp at h
+  | cons c r ih =>
+    intro done items h
+    cases items with
+    | nil => simp at h
+    | cons a b =>
+      have hget : (done ++ c :: r)[done.length]? = some c := by simp
+      simp only [foldSI, fillStep, hget]
+      have hset : (done ++ c :: r).set done.length { c with st := st } = (done ++ [{ c with st := st }]) ++ r := by
+        simp [List.set_append]
+      rw [hset]
+      have := ih (done ++ [{ c with st := st }]) b (by simpa using h)
+      simp only [List.length_append, List.length_singleton] at this
+      rw [this]; simp
+
+
 end VaxisModel.Lemmas.SurfExec
